@@ -587,9 +587,10 @@ def op_token(cur, op, o) -> str | None:
     req = op["req"]
     algo = req["algo"]
     mode = op["mode"]
-    if algo == "CustomDOE":
-        rows = B.custom_rows(req)
-    elif mode == "exec":
+    if algo == "CustomDOE":  # the samples as the user wrote them (form, key orders); converted by the model
+        form, groups = B.custom_groups(cur, req)
+        return f"cdoe mode={mode} form={form}" + (" | " + groups if groups else "")
+    if mode == "exec":
         rows = B.fmat(o["us"])
     else:
         rows = B.fmat(o["uref"])
